@@ -2,7 +2,7 @@
 # integrate.sh <agent-id>: merge /work/<id>/verif main into /verif, regenerate assembled files.
 set -u
 cd /verif
-git fetch -q /work/$1/verif main || exit 1
+git fetch -q /work/$1/verif ${2:-main} || exit 1
 git merge --no-commit --no-ff FETCH_HEAD > /tmp/merge.log 2>&1
 for f in MANIFEST.json known_findings.json; do git checkout --ours $f 2>/dev/null; done
 for f in $(git diff --name-only --diff-filter=U); do
